@@ -43,7 +43,7 @@ func VerifCleanupFollowsRealAccesses() {
 		now += d
 		clk.Set(time.Unix(now, 0))
 	}
-	accesses := verif.Bound("accesses", 3, 5)
+	accesses := verif.Bound("accesses", 3, 4)
 	for i := 0; i < accesses; i++ {
 		pause("gap")
 		r, err := cs.GetCacheFileReader("f0")
